@@ -49,6 +49,10 @@ LEVEL_TEXT += (
     "local axes of N-tensors follow the index rows; tolocal(basis) adds "
     "each facet matrix to its owner cell; functionals over basis lists; "
     "composite padding; bmat.blocks.")
+LEVEL_TEXT += (
+    " Added in the second hunting round (DESIGN.md 9.6): "
+    "CompositeBasis is run in both numbering modes (concatenated and "
+    "shared, basis0 @ basis1).")
 LEVEL_NOTE = (
     "Trusted: numpy reshape/moveaxis/flatten/split/cumsum semantics. The "
     "@-composite (equal_dofnum) branch of CompositeBasis is outside the "
